@@ -1,7 +1,7 @@
 //! Conformance harness for specification-growth module G05 (the `read`
 //! built-in), see spec/ReadBuiltin.tla.
 //!
-//! `yv-g05 replay --in GEN.ndjson --out MISMATCHES.ndjson --sample SAMPLE.ndjson [--threads T]`
+//! `yv-g05 replay --in GEN.ndjson --out MISMATCHES.ndjson --sample SAMPLE.ndjson [--threads T] [--feeds pipe]`
 //!     spec -> impl: every line of GEN is an input printed by Gen_ReadBuiltin
 //!     with the fan of cases (raw mode x IFS x variable operands) and what the
 //!     specification demands of each.  Every case is run by the real shell on
@@ -146,7 +146,7 @@ fn hash(toks: &[String], salt: u64) -> u64 {
 const CHUNKS: [usize; 4] = [1, 0, 2, 3];
 
 /// spec -> impl for one line of Gen_ReadBuiltin.
-fn replay_line(g: &Value, st: &mut Stats, sample: &mut Vec<Value>) -> Vec<Value> {
+fn replay_line(g: &Value, st: &mut Stats, sample: &mut Vec<Value>, pipe_only: bool) -> Vec<Value> {
     let fam = g["fam"].as_str().unwrap().to_string();
     let d = g["d"].as_str().unwrap().to_string();
     let toks = strs(&g["inp"]);
@@ -169,10 +169,14 @@ fn replay_line(g: &Value, st: &mut Stats, sample: &mut Vec<Value>) -> Vec<Value>
         };
         let mut feeds = if fam == "noin" {
             vec![Feed::Closed]
+        } else if pipe_only {
+            // stage of C14: the input arrives through a pipe only, in chunks of
+            // 1, 2 and 3 bytes (every way a short read can split a character)
+            vec![Feed::Pipe(1), Feed::Pipe(2), Feed::Pipe(3)]
         } else {
             vec![Feed::File, Feed::Pipe(CHUNKS[((h as usize) + j) % CHUNKS.len()])]
         };
-        if here && fam != "noin" {
+        if here && fam != "noin" && !pipe_only {
             feeds.push(Feed::Here);
         }
         for f in feeds {
@@ -384,6 +388,8 @@ fn main() {
             let out = open_out_send(opt(&args, "--out").expect("--out"));
             let sample = open_out_send(opt(&args, "--sample").expect("--sample"));
             let total = Mutex::new(Stats::default());
+            // `--feeds pipe`: pipe feeds only (chunks of 1, 2 and 3 bytes for every case)
+            let pipe_only = opt(&args, "--feeds") == Some("pipe");
             std::thread::scope(|s| {
                 for _ in 0..threads {
                     s.spawn(|| {
@@ -410,7 +416,7 @@ fn main() {
                             let mut smp = Vec::new();
                             for l in &batch {
                                 let g: Value = serde_json::from_str(l).expect("json line of Gen_ReadBuiltin");
-                                mism.extend(replay_line(&g, &mut st, &mut smp));
+                                mism.extend(replay_line(&g, &mut st, &mut smp, pipe_only));
                             }
                             write_values(&out, &mism);
                             write_values(&sample, &smp);
